@@ -104,6 +104,14 @@ class LinePostProcessor(PostProcessor):
         my_generator.generate_all(False, True, True, [c_style])
     """
 
+    def for_new_file(self) -> "LinePostProcessor":
+        """
+        Returns the post processor to use for the next generated file. Stateless post processors are reused as-is
+        (the default). Post processors that carry state from one line to the next shall return an instance with
+        fresh state so that the output for one file does not depend on the files generated before it.
+        """
+        return self
+
     @abc.abstractmethod
     def __call__(self, line_and_lineend: typing.Tuple[str, str]) -> typing.Tuple[str, str]:
         """
@@ -216,6 +224,9 @@ class LimitEmptyLines(LinePostProcessor):
     def __init__(self, max_empty_lines: int):
         self._max_empty_lines = max_empty_lines
         self._empty_line_count = 0
+
+    def for_new_file(self) -> "LimitEmptyLines":
+        return LimitEmptyLines(self._max_empty_lines)
 
     def __call__(self, line_and_lineend: typing.Tuple[str, str]) -> typing.Tuple[str, str]:
         if len(line_and_lineend[0]) == 0:
